@@ -322,6 +322,22 @@ def run_c10(ctx, prop):
                   {"path": "e.idl", "nodes": [_st("SE")]},
                   {"path": "d.idl", "nodes": [_st("SD")]}]
         fixed.append({"id": f"C10-diamond-{k_}", "files": files_, "main": "main.idl", "incdirs": []})
+    # names that differ by case only are different names (the documented restriction forbids
+    # actual duplicates): constants, errors and methods, within one interface and along a chain
+    # that crosses an include
+    fixed.append({"id": "C10-case-variants", "main": "main.idl", "incdirs": [], "files": [
+        {"path": "main.idl", "nodes": [
+            {"k": "include", "path": "ibase.idl"},
+            {"k": "interface", "name": "IDeviceC", "base": "IBaseC", "members": [
+                {"k": "error", "name": "TIMEOUT"}, {"k": "error", "name": "busy"},
+                {"k": "const", "type": "uint32", "name": "version", "value": "1"},
+                {"k": "const", "type": "uint32", "name": "VERSION", "value": "0x10"},
+                {"k": "method", "name": "Reset", "optional": False, "doc": None, "params": []},
+                {"k": "method", "name": "reset", "optional": False, "doc": None, "params": [{"dir": "in", "type": "uint8", "arr": None, "name": "Level"}, {"dir": "in", "type": "uint8", "arr": None, "name": "level"}]}]}]},
+        {"path": "ibase.idl", "nodes": [
+            {"k": "interface", "name": "IBaseC", "base": None, "members": [
+                {"k": "const", "type": "uint32", "name": "Timeout", "value": "5"}, {"k": "error", "name": "BUSY"},
+                {"k": "method", "name": "RESET", "optional": False, "doc": None, "params": []}]}]}]})
     for i in range(n + len(fixed)):
         base = fixed[i] if i < len(fixed) else gen.gen_case(ctx.rng, opts, cid=f"C10-{ctx.seed}-{i}")
         if i >= len(fixed) and i % 3 == 0:
@@ -364,6 +380,26 @@ def run_c10(ctx, prop):
                     open(mk, "w").write("Confidential\nline two\n")
                     flags = flags + ["--marking", mk]
                 rv = real_verdicts(ctx, case, root, tmp, backends=backends, flags=flags)
+                if vname == "orig":
+                    # the same command line given relative to the invocation directory (the parent
+                    # of the tree): input, every -I, the marking file and the output
+                    import subprocess as _sp
+                    os.makedirs(os.path.join(tmp, "gen"), exist_ok=True)
+                    open(os.path.join(tmp, "mark.txt"), "w").write("Relative marking\n")
+                    for b_ in ("c", "cpp-skel", "rust"):
+                        o_rel = os.path.join("gen", "rel-" + b_)
+                        if b_ == "rust":
+                            os.makedirs(os.path.join(tmp, o_rel), exist_ok=True)
+                        cmd_ = [ctx.idlc["debug"], os.path.join("src", case["main"])] + E.BACKENDS[b_] + ["--marking", "mark.txt"]
+                        for d_ in case.get("incdirs", []):
+                            cmd_ += ["-I", os.path.join("src", d_)]
+                        cmd_ += ["-o", o_rel]
+                        p_ = _sp.run(cmd_, stdout=_sp.PIPE, stderr=_sp.PIPE, cwd=tmp, env=C.ENV, timeout=60)
+                        ctx.bump("evaluations")
+                        if p_.returncode != rv[b_][0]:
+                            oracle_fail.append({"case": case, "failures": [{"variant": "relative invocation", "backend": b_,
+                                                "error": "the same valid command line is refused when its paths are given relative to the invocation directory",
+                                                "rc": p_.returncode, "rc_with_absolute_paths": rv[b_][0], "stderr": p_.stderr.decode("utf-8", "replace")[-300:]}]})
                 model_cli, impl_cli = E.e1(ctx, case, root, "cli")
                 vm, vp = E.verdict_of(model_cli), E.verdict_of(impl_cli)
                 if vm != vp or (vm == "accept") != (rv["c"][0] == 0):
